@@ -40,7 +40,9 @@ def run(tier, seed):
         k = r.random()
         if k < 0.4:
             return gen.gen_loc(r, **gk)
-        if k < 0.55:
+        if k < 0.5:
+            return gen3.gen_prefix_overlap_loc(r)
+        if k < 0.58:
             return gen3.gen_prefix_overlap(r)
         if k < 0.7:
             return gen3.gen_lane_stress(r)
